@@ -233,3 +233,28 @@ func Ok_ClosureArg() int {
 	runIt(func() { x = 2 })
 	return y
 }
+
+// ---- a callee that rewrites the elements of a slice argument (also one that lives in a field)
+func zeroAll(s []int) []int {
+	for i := range s {
+		s[i] = 0
+	}
+	return s
+}
+
+func Ok_CalleeElems(t *T) int {
+	t.xs = zeroAll(t.xs)
+	if len(t.xs) > 0 {
+		return t.xs[0]
+	}
+	return 0
+}
+
+func Bad_CalleeElems(t *T) int {
+	if len(t.xs) == 0 {
+		return 0
+	}
+	v := t.xs[0]
+	zeroAll(t.xs)
+	return t.xs[0] - v
+}
